@@ -1,11 +1,13 @@
 import Pixman.Lemmas.FormatCodec
+import Pixman.Lemmas.FormatMem
+import Pixman.Lemmas.FormatWide
 /-! C10 — pixel formats: exact codec, bit-replicated widening, accessor equivalence.
 
 Statements are about the model `Pixman.Model.Format` (tied to pixman-access.c / pixman-utils.c by the
 correspondence check) for every format of the regenerated table `Pixman.Gen.Formats.formats`; no bound on
 pixel values, offsets or memory contents.  What is *not* proved is listed at the end of the file. -/
 namespace Pixman.Props.C10
-open Pixman.Model.Format Pixman.Spec.Format Pixman.Lemmas.FormatCodec
+open Pixman.Model.Format Pixman.Spec.Format Pixman.Lemmas.FormatCodec Pixman.Lemmas.FormatMem Pixman.Lemmas.FormatWide
 open Pixman.Gen.Formats (Rec formats)
 
 /-! ## the regenerated table against the hand-written model -/
@@ -268,5 +270,153 @@ theorem indexed_store_fetch_id (r : Rec) (hr : r ∈ formats) (hi : indexed r = 
   rw [indexed_fetch r hr hi, indexed_store r hr hi, hcons]
 
 example : ∃ r ∈ formats, indexed r = true ∧ r.name = "g4" := by decide
+
+
+/-! ## memory: stores change only the addressed pixel; scanline and pixel readers agree -/
+
+/-- every `MAKE_ACCESSORS` format has 1, 4, 8, 16, 24 or 32 bits per pixel -/
+theorem gen_bpp : ∀ r ∈ formats, r.acc = 1 → Bpp (fmtBpp r.code) := by
+  unfold Bpp; decide
+
+/-- **A pixel store changes only the addressed pixel's bits.**  For every `MAKE_ACCESSORS` format, any memory,
+any row address, any offset and value: (1) every *other* pixel offset of the row — the other nibble of the
+byte, the other 31 bits of the 32-bit word included — reads the same raw value as before, and (2) every byte
+outside the storage unit of the pixel (its own bytes; the byte for 4 bpp; the aligned 32-bit word for 1 bpp)
+is unchanged. -/
+theorem store_changes_only_addressed_pixel (r : Rec) (hr : r ∈ formats) (ha : r.acc = 1) (pal : Palette) (m : Mem)
+    (hb : m.Bytes) (dest o v : Nat) :
+    (∀ o', o' ≠ o → fetchRaw (convertAndStorePixel pal m dest o r.code v) dest o' (fmtBpp r.code) =
+        fetchRaw m dest o' (fmtBpp r.code)) ∧
+    (∀ a, (a < unitLo dest o (fmtBpp r.code) ∨ unitLo dest o (fmtBpp r.code) + unitLen (fmtBpp r.code) ≤ a) →
+        convertAndStorePixel pal m dest o r.code v a = m a) := by
+  have hbpp := gen_bpp r hr ha
+  exact ⟨fun o' hne => fetchRaw_storeRaw_other m hb dest o o' _ _ hbpp hne,
+         fun a hx => storeRaw_frame m dest o _ _ a hbpp hx⟩
+
+example : ∃ r ∈ formats, r.acc = 1 ∧ r.name = "a1" ∧ unitLo 64 37 (fmtBpp r.code) = 68 ∧ unitLen (fmtBpp r.code) = 4 := by decide
+
+/-- the addressed pixel afterwards holds the converted value (its low `bpp` bits) -/
+theorem store_then_fetch_raw (r : Rec) (hr : r ∈ formats) (ha : r.acc = 1) (pal : Palette) (m : Mem) (hb : m.Bytes)
+    (dest o v : Nat) :
+    fetchRaw (convertAndStorePixel pal m dest o r.code v) dest o (fmtBpp r.code) =
+      convertPixelFromA8r8g8b8 pal r.code v % 2 ^ fmtBpp r.code :=
+  fetchRaw_storeRaw_same m hb dest o _ _ (gen_bpp r hr ha)
+
+/-- reading a packed pixel back through the format's reader after storing `v`: the value `v` narrowed and
+widened again, nothing else -/
+theorem store_then_fetch_pixel (r : Rec) (hr : r ∈ formats) (hp : packed r = true) (pal : Palette) (m : Mem) (hb : m.Bytes)
+    (dest o v : Nat) :
+    fetchAndConvertPixel pal (convertAndStorePixel pal m dest o r.code v) dest o r.code =
+      convertPixelToA8r8g8b8 pal r.code (convertPixelFromA8r8g8b8 pal r.code v) := by
+  have ha : r.acc = 1 := by
+    simp only [packed, Bool.and_eq_true, beq_iff_eq] at hp; exact hp.1.1
+  unfold fetchAndConvertPixel
+  rw [store_then_fetch_raw r hr ha pal m hb, (gen_fields r hr).1]
+  obtain ⟨_, _, _, _, _, hlt⟩ := stored_fields r hr hp pal v
+  rw [Nat.mod_eq_of_lt hlt]
+
+/-- **scanline reader = map of the single-pixel reader** -/
+theorem fetch_scanline_is_map_of_fetch_pixel (img : Image) (m : Mem) (x y w : Nat) :
+    fetchScanline img m x y w = (List.range w).map (fun i => fetchPixel img m (x + i) y) := by
+  unfold fetchScanline fetchPixel
+  exact fetchScanlineLoop_eq_map img.pal m (img.row y) img.format x w
+
+example : (fetchScanline ⟨268567909, 0, 2, ⟨fun _ => 0, fun _ => 0⟩⟩ (fun a => if a = 2 then 0x1f else 0) 0 0 2).length = 2 := by decide
+
+/-- the scanline store is the pixel stores in order (this is how the driver evaluates it) -/
+theorem storeScanline_eq_foldl (img : Image) (m : Mem) (x y : Nat) (vs : List Nat) :
+    storeScanline img m x y vs =
+      (vs.zipIdx x).foldl (fun m vi => convertAndStorePixel img.pal m (img.row y) vi.2 img.format vi.1) m :=
+  storeScanlineLoop_eq_foldl img.pal (img.row y) img.format m x vs
+
+/-- a scanline store of `n` values at `x`: pixels outside `[x, x+n)` keep their raw value, bytes outside the
+storage units of the stored pixels are unchanged, and pixel `x+i` holds the `i`-th converted value -/
+theorem store_scanline_frame (r : Rec) (hr : r ∈ formats) (ha : r.acc = 1) (img : Image) (hf : img.format = r.code)
+    (m : Mem) (hb : m.Bytes) (x y : Nat) (vs : List Nat) :
+    (∀ o', (o' < x ∨ x + vs.length ≤ o') →
+        fetchRaw (storeScanline img m x y vs) (img.row y) o' (fmtBpp r.code) = fetchRaw m (img.row y) o' (fmtBpp r.code)) ∧
+    (∀ a, (∀ i, i < vs.length → a < unitLo (img.row y) (x + i) (fmtBpp r.code) ∨
+            unitLo (img.row y) (x + i) (fmtBpp r.code) + unitLen (fmtBpp r.code) ≤ a) →
+        storeScanline img m x y vs a = m a) ∧
+    (∀ i, i < vs.length → fetchRaw (storeScanline img m x y vs) (img.row y) (x + i) (fmtBpp r.code) =
+        convertPixelFromA8r8g8b8 img.pal r.code (vs.getD i 0) % 2 ^ fmtBpp r.code) := by
+  have hbpp := gen_bpp r hr ha
+  unfold storeScanline
+  rw [hf]
+  exact ⟨fun o' ho => storeScanlineLoop_other img.pal (img.row y) r.code m hb x vs hbpp o' ho,
+         fun a h => storeScanlineLoop_frame img.pal (img.row y) r.code m x vs hbpp a h,
+         fun i hi => storeScanlineLoop_at img.pal (img.row y) r.code m hb x vs hbpp i hi⟩
+
+
+/-! ## wide (float) paths — PARTIAL: exact rational arithmetic, not IEEE-754
+
+All theorems of this section are about the model in which a C `float` is an exact rational
+(`u * (1.f / m)` is `u / m`, `f * (1 << n)` is exact, which it also is in IEEE arithmetic).  What is missing for
+the full statement: the two roundings of `unorm_to_float` (the reciprocal and the product).  The correspondence
+check compares the library's floats with these rationals within 1 ulp, 0.0 and 1.0 exactly, and the
+float → integer direction bit for bit. -/
+
+/-- `float_to_unorm (unorm_to_float (u, n), n) = u` for all widths 1..10 -/
+theorem float_roundtrip_partial (n u : Nat) (h1 : 1 ≤ n) (h2 : n ≤ 10) (hu : u < 2 ^ n) :
+    floatToUnorm (unormToFloat u n) n = u := (float_facts n u h1 h2 hu).1
+
+/-- 0 ↦ 0.0 and maximum ↦ 1.0 -/
+theorem float_ends_partial (n : Nat) (h1 : 1 ≤ n) (h2 : n ≤ 10) :
+    unormToFloat 0 n = 0 ∧ unormToFloat (2 ^ n - 1) n = 1 := by
+  have hpos := Nat.two_pow_pos n
+  exact ⟨(float_facts n 0 h1 h2 hpos).2.1 rfl, (float_facts n (2 ^ n - 1) h1 h2 (by omega)).2.2.1 (by omega)⟩
+
+/-- widening to float is strictly monotone -/
+theorem float_strict_mono_partial (n : Nat) (h1 : 1 ≤ n) (h2 : n ≤ 10) (a b : Nat) (hab : a < b) (hb : b < 2 ^ n) :
+    unormToFloat a n < unormToFloat b n := by
+  induction b with
+  | zero => omega
+  | succ k ih =>
+    have step := (float_facts n k h1 h2 (by omega)).2.2.2 hb
+    by_cases hk : a = k
+    · rw [hk]; exact step
+    · exact rat_lt_trans (ih (by omega) (by omega)) step
+
+/-- narrowing from float clamps: below 0 gives 0, above 1 gives the maximum; 0.0 ↦ 0, 1.0 ↦ maximum -/
+theorem float_clamps_partial (n : Nat) (h1 : 1 ≤ n) (h2 : n ≤ 10) (f : Rat) :
+    (f < 0 → floatToUnorm f n = 0) ∧ (f > 1 → floatToUnorm f n = 2 ^ n - 1) ∧
+    floatToUnorm 0 n = 0 ∧ floatToUnorm 1 n = 2 ^ n - 1 := by
+  obtain ⟨e0, e1⟩ := float_ends_table n (List.mem_range.mpr (by omega)) h1
+  exact ⟨fun h => by rw [floatToUnorm_clamp_lo f n h, e0], fun h => by rw [floatToUnorm_clamp_hi f n h, e1], e0, e1⟩
+
+/-- the float pipeline and the 8-bit pipeline widen alike: level → float → 8 bits is bit replication -/
+theorem float_path_is_replication_partial (n c : Nat) (h1 : 1 ≤ n) (h2 : n ≤ 8) (hc : c < 2 ^ n) :
+    floatToUnorm (unormToFloat c n) 8 = unormToUnorm c n 8 := by
+  have : c < 256 := Nat.lt_of_lt_of_le hc (Nat.pow_le_pow_right (by decide) h2)
+  exact float_vs_replication_table n (List.mem_range.mpr (by omega)) c (List.mem_range.mpr this) h1 hc
+
+/-- packed 10-bit formats: store ∘ fetch = identity on the defined bits -/
+theorem wide10_store_fetch_id_partial (p : Nat) (hp : p < 2 ^ 32) :
+    storeA2r10g10b10Float (fetchA2r10g10b10Float p) = p ∧ storeA2b10g10r10Float (fetchA2b10g10r10Float p) = p ∧
+    storeX2r10g10b10Float (fetchX2r10g10b10Float p) = p % 2 ^ 30 ∧
+    storeX2b10g10r10Float (fetchX2b10g10r10Float p) = p % 2 ^ 30 :=
+  ⟨a2r10g10b10_roundtrip p hp, a2b10g10r10_roundtrip p hp, x2r10g10b10_roundtrip p, x2b10g10r10_roundtrip p⟩
+
+example : storeA2r10g10b10Float (fetchA2r10g10b10Float 0x9abcdef0) = 0x9abcdef0 := by decide +kernel
+
+/-- a8r8g8b8_sRGB (float path): store ∘ fetch = identity; the regenerated `to_linear` table runs strictly
+increasing from 0.0 to 1.0 and `to_srgb` inverts it -/
+theorem srgb_store_fetch_id_partial (p : Nat) (hp : p < 2 ^ 32) : storeSrgbFloat (fetchSrgbFloat p) = p :=
+  srgb_roundtrip p hp
+
+theorem srgb_table_monotone_partial :
+    (∀ v, v < 256 → toSrgb (toLinear v) = v) ∧ (∀ v, v < 255 → toLinear v < toLinear (v + 1)) ∧
+    toLinear 0 = 0 ∧ toLinear 255 = 1 :=
+  ⟨fun v h => srgb_table.1 v (List.mem_range.mpr h), fun v h => srgb_table.2.1 v (List.mem_range.mpr h),
+   srgb_table.2.2.1, srgb_table.2.2.2⟩
+
+/-! ## not proved here
+
+* Accessor equivalence: pixman-access-accessors.c is the same source recompiled with `READ`/`WRITE` calling the
+  user callbacks.  The model has one `READ`/`WRITE`; that the second compilation behaves like the first is
+  established by the correspondence check only (direct and callback images against the same model, callback
+  addresses inside the storage).
+* IEEE-754 rounding (see the section above).
+* yv12, the 32-bit sRGB entry points, big-endian builds, negative strides. -/
 
 end Pixman.Props.C10
